@@ -101,6 +101,15 @@ def gen_case(rng, rich_criterion=False, small=False):
         params["wait"] = False
         params["criterion"] = rng.choice([dict(max_num_evaluations=rng.randint(4, 14)), dict(max_cost=rng.randint(8, 30) / 4.0),
                                           dict(min_metric_value=rng.randint(1, 3) / 4.0), {}])
+    if rich_criterion and rng.random() < 0.1:
+        profile["p_ckpt_missing"] = rng.choice([0.05, 0.15])   # PBT-style clone whose source checkpoint does not exist
+    if rich_criterion and rng.random() < 0.25:
+        # names of columns TuningStatus uses in its rows, as a reported field and / or as a hyperparameter
+        name = rng.choice(["status", "status", "trial_id", "iter", "worker-time", "worker-cost"])
+        if rng.random() < 0.7:
+            params["odd_field"] = name
+        if rng.random() < 0.5 or "odd_field" not in params:
+            params["odd_config"] = rng.choice(["status", "trial_id", "iter"])
     params["polls_budget"] = profile["polls"]
     if rich_criterion or rng.random() < 0.2:
         params["num_type"] = rng.choice(scripted.NUM_TYPES)
@@ -330,6 +339,14 @@ def check_c12(params, out):
         break
     # ---- the StoppingCriterion itself, re-evaluated from its documentation ---------------------------
     bad.extend(check_stopping_criterion(params, out))
+    # ---- a fault inside start_trial (checkpoint to clone from is missing): the original exception escapes -------
+    starts = sum(1 for ev in tr if ev[0] == "b_start")
+    sug = [ev for ev in tr if ev[0] == "s_suggest"]
+    if sug and sug[-1][2] is not None and sug[-1][2][0] == "start" and sug[-1][2][2] is not None \
+            and sug[-1][2][2] >= starts and sug[-1][1] == starts:
+        if out["outcome"][0] not in ("ckpt_missing", "failure_limit"):
+            bad.append(("copy_checkpoint raised inside start_trial (no checkpoint of trial %s) but run() ended with %s" % (
+                sug[-1][2][2], out["outcome"][:3]), dict(check="finally", event="original_exception_masked", outcome=out["outcome"][0])))
     # ---- finally block ----------------------------------------------------------------------
     if out["outcome"][0] != "aborted":
         if sum(1 for ev in tr if ev[0] == "cb_tuning_end") != 1 or sum(1 for ev in tr if ev[0] == "b_stop_all") != 1:
@@ -593,6 +610,9 @@ def scripted_runs(ctx, cases, checker, prop_name, shard=20):
             if lost:
                 ctx.violation("property", "start_jobs_without_delay=False: trials %s were started but no later poll lists them" % lost,
                               case=rep, signature=dict(check="sjwd_false", event="started_trial_never_polled"))
+        if out["outcome"][0] in ("ckpt_missing", "exception"):
+            ctx.h("outside_model", out["outcome"][0])   # a fault inside start_trial is not part of model/Tuner.v
+            continue
         terms.append(coq_case(case, out))
         meta.append((rep, out))
     if terms:
